@@ -174,6 +174,30 @@ def rule_seed(ctx):
                             "fresh names can coincide with binders chosen by the user" % key, s["sp"]["file"], s["sp"]["line"])
                 ok = False
             res.inst(ikey, s["sp"]["file"], s["sp"]["line"], "ok" if ok else "violation")
+            # no name is drawn from the set before the body's binders are in it (a draw made directly on the local set, not through the state)
+            for b2, t2 in fn.calls():
+                c2 = t2.get("callee") or ""
+                if t2.get("callee_name") in ("used_binders", "vars") or c2.startswith(("std::", "core::", "alloc::", "hashbrown::")):
+                    continue
+                dl = t2["dest"]["l"]
+                dty = fn.f["locals"][dl]["ty"]
+                if not (dty.endswith("String") or "Identifier" in dty or dty.endswith("Name")):
+                    continue
+                takes = False
+                for a2 in t2["args"]:
+                    r2 = op_root(a2)
+                    if r2 is not None and "HashSet" in fn.f["locals"][r2]["ty"] and flow.origins(r2, ()) & org:
+                        takes = True
+                if not takes:
+                    continue
+                dkey = "%s:draw@%s" % (key, t2.get("callee_name"))
+                if any(fn.dominates(b, b2) and b != b2 for b in good_ub):
+                    res.inst(dkey, t2["sp"]["file"], t2["sp"]["line"], "ok", "drawn after used_binders")
+                else:
+                    res.inst(dkey, t2["sp"]["file"], t2["sp"]["line"], "violation")
+                    res.violate(dkey, "%s draws a name with %s from the set of used names before used_binders(body, ..) has added the binders of the body: "
+                                "the name can coincide with a binder chosen by the user, which then captures it" % (key, t2.get("callee_name")),
+                                t2["sp"]["file"], t2["sp"]["line"])
     # compile_prog: used_labels seeded from every def name
     def hands_on(t):
         """the call translates definitions: compile_def / compile_main, or a helper of fun2core that calls them"""
